@@ -6,6 +6,7 @@ package scen
 // plain), and the construction of (abstract schema, input, destination).
 
 import (
+	"time"
 	"fmt"
 	"math"
 	"reflect"
@@ -168,6 +169,7 @@ type Alpha struct {
 	FE       bool // front-end alphabets (C10, C14): {plain, required, two tests} × {valid, missing, nil, empty, failing, uncoercible}
 	Full     bool // C13: fully populated values only (no zero leaf, no empty slice, no nil pointer)
 	Lite     bool // reduced configuration/input alphabets (used where another dimension is added)
+	PathT1   bool // C05: the built-in test t1 of every node is declared with IssuePath("alias@<node>")
 	NegStr   bool // C05: the second test of a string node is the built-in negated test Not().Contains("2") instead of a TestFunc with the same predicate
 	MutPost  bool // C13: value-changing PostTransforms are part of the alphabet {none, one changing, changing + plain}
 }
@@ -178,7 +180,7 @@ func (a *Alpha) primCfgN(k Kind) int {
 		return 3
 	}
 	if a.Lite {
-		return 5
+		return 6
 	}
 	n := 2 * 3 * 2 * 3
 	if a.NoCatch {
@@ -213,8 +215,17 @@ func (a *Alpha) primCfg(n *Node, idx int) {
 			n.DefClass = 1
 		case 4:
 			n.Tests = []TestSpec{t1, t2}
+		case 5:
+			// both tests, the built-in one filed under a path that every node with this configuration shares
+			if n.Kind != KBool { // Bool.True() takes no options
+				t1.Path = "alias"
+			}
+			n.Tests = []TestSpec{t1, t2}
 		}
 		return
+	}
+	if a.PathT1 && n.Kind != KBool {
+		t1.Path = "alias@" + n.Pos // one alias per schema node (elements of a slice share theirs)
 	}
 	ti := idx % 3
 	idx /= 3
@@ -235,6 +246,10 @@ func (a *Alpha) primCfg(n *Node, idx int) {
 	}
 }
 
+// caseVariant: the field's own key is missing from the record, but a key that differs from it only in letter case
+// holds this value. Keys are case-sensitive in every front end: the field is absent.
+type caseVariant struct{ v any }
+
 type inClass struct {
 	Label   string
 	V       any
@@ -249,6 +264,7 @@ func (a *Alpha) primParseInputs(k Kind) []inClass {
 		if k != KStr {
 			out = append(out, inClass{"uncoercible", "abc", false})
 		}
+		out = append(out, inClass{"only-under-a-key-of-other-letter-case", caseVariant{valid}, false})
 		return out
 	}
 	if a.Lite {
@@ -307,6 +323,11 @@ func (a *Alpha) primValidateInputs(k Kind) []inClass {
 	}
 	if k == KFloat {
 		out = append(out, inClass{"nan", math.NaN(), false}) // NaN satisfies no comparison
+		out = append(out, inClass{"negzero", math.Copysign(0, -1), false}) // not the Go zero value (its bits are not all zero): present
+	}
+	if k == KTime {
+		// the year-1 instant carried in a Location is not the Go zero value time.Time{}: present, so it is tested
+		out = append(out, inClass{"zero-instant-zoned", time.Time{}.In(time.FixedZone("Z1", 3600)), false})
 	}
 	return out
 }
@@ -317,10 +338,16 @@ func (a *Alpha) sliceCfgN(elem Kind) int {
 	if a.FE {
 		return 3
 	}
+	if a.Lite {
+		if elem.Prim() {
+			return 5
+		}
+		return 3
+	}
 	if !elem.Prim() {
 		return 2 * 3
 	}
-	return 2 * 3 * 3
+	return 2 * 3 * 4
 }
 
 func (a *Alpha) sliceCfg(n *Node, idx int, elem Kind) {
@@ -335,12 +362,27 @@ func (a *Alpha) sliceCfg(n *Node, idx int, elem Kind) {
 		}
 		return
 	}
+	if a.Lite {
+		// reduced: plain | required | both tests | passing default | default holding a falsy item
+		n.Tests = []TestSpec{t2}
+		switch idx {
+		case 1:
+			n.Req = true
+		case 2:
+			n.Tests = []TestSpec{t1, t2}
+		case 3:
+			n.DefClass = 1
+		case 4:
+			n.DefClass = 3
+		}
+		return
+	}
 	ti := idx % 3
 	idx /= 3
 	n.Req = idx%2 == 1
 	idx /= 2
 	if elem.Prim() {
-		n.DefClass = idx % 3
+		n.DefClass = idx % 4 // 3: a default holding a present-but-falsy item (0, false, the zero time)
 	}
 	switch ti {
 	case 0:
@@ -451,11 +493,15 @@ func (b *caseBuilder) buildNode(s *Skel) *Node {
 	if b.a.WithPost {
 		b.postCfg(n, unit)
 	} else if b.a.MutPost && n.Kind != KPtr && n.Kind != KStruct {
-		switch b.pick(unit, "post", 3) {
+		switch b.pick(unit, "post", 5) {
 		case 1:
 			n.NPosts, n.PostMut = 1, true
 		case 2:
 			n.NPosts, n.PostMut = 2, true
+		case 3:
+			n.NPosts, n.PostErr = 1, -1 // returns a *ZogIssue that names its own path
+		case 4:
+			n.NPosts, n.PostErr, n.PostNoPath = 1, -1, true // returns a *ZogIssue without a path
 		}
 	}
 	if s.typ == nil {
@@ -470,7 +516,9 @@ func (b *caseBuilder) postCfg(n *Node, unit string) {
 	}
 	// 0: one ok post; 1: none; 2: two ok; 3: first errors (second must not run); 4: second errors; 5: first returns *ZogIssue;
 	// 6: first returns an ordinary error that wraps a *ZogIssue (reported like any other error, at the node's path)
-	switch b.pick(unit, "post", 7) {
+	switch b.pick(unit, "post", 8) {
+	case 7:
+		n.NPosts, n.PostErr, n.PostNoPath = 2, -1, true // first returns a *ZogIssue that carries no path
 	case 6:
 		n.NPosts, n.PostErr, n.PostWrap = 2, 1, true
 	case 0:
@@ -541,7 +589,7 @@ func (b *caseBuilder) parseInput(n *Node, pp string, path string) (any, bool) {
 			return nil, false
 		}
 		v, miss := b.parseInput(n.Elem, pp, path)
-		if miss || parseAbsentSpec(v) {
+		if _, cv := v.(caseVariant); cv || miss || parseAbsentSpec(v) {
 			b.absent(n, path)
 		}
 		return v, miss
@@ -559,6 +607,17 @@ func (b *caseBuilder) parseInput(n *Node, pp string, path string) (any, bool) {
 		m := map[string]any{}
 		for _, f := range n.Fields {
 			v, miss := b.parseInput(f.N, pp, joinPath(path, f.Key))
+			if cv, ok := v.(caseVariant); ok {
+				k := fieldKeyFor(f, b.a.SourceTag)
+				alt := strings.ToUpper(k)
+				if alt == k {
+					alt = strings.ToLower(k)
+				}
+				if alt != k {
+					m[alt] = cv.v
+				}
+				continue
+			}
 			if !miss {
 				m[fieldKeyFor(f, b.a.SourceTag)] = v
 			}
@@ -567,7 +626,10 @@ func (b *caseBuilder) parseInput(n *Node, pp string, path string) (any, bool) {
 	default:
 		ins := b.a.primParseInputs(n.Kind)
 		ic := ins[b.pick(unit, "in", len(ins))]
-		if ic.Missing || parseAbsentSpec(ic.V) {
+		if cv, ok := ic.V.(caseVariant); ok && (strings.HasSuffix(path, "]") || path == "") {
+			return cv.v, false // list items and the root have no key: the class degenerates to the valid value
+		}
+		if _, cv := ic.V.(caseVariant); cv || ic.Missing || parseAbsentSpec(ic.V) {
 			b.absent(n, path)
 		}
 		return ic.V, ic.Missing
